@@ -183,8 +183,20 @@ def main():
                for o in all_obls[:6]] + [{k: o[k] for k in ('name', 'kind', 'verdict', 'backend', 'seconds', 'function', 'detail', 'model') if k in o}
                                          for o in (refuted + undecided)[:10]]
     evid_level = level if (n_dis == n_obl - len(known) and not errors and not undecided) else level
+    selftest = None
+    if tier == 'thorough' and not os.environ.get('VERIF_REPO'):
+        from pyvc import selftest as st
+        selftest = st.run(a.prop, a.jobs)
+        if selftest.get('failures'):
+            errors.append(('mutation-selftest', None, 'mutation self-test: ' + '; '.join(
+                f"{f['status']}: {f['line'][:120]}" for f in selftest['failures'][:5])))
+            if exit_code == 0:
+                exit_code = 3
     coverage = {
-        'obligations': n_obl, 'discharged': n_dis,
+        # obligations claimed = all obligations generated minus the ones recorded as known findings (listed below)
+        'obligations': n_obl - len(known), 'discharged': n_dis,
+        'obligations_generated': n_obl,
+        'mutation_selftest': selftest,
         'refuted_known_findings': len(known), 'refuted_new': len(new), 'undecided': len(undecided),
         'checker_cmd': f'./check {a.prop} --tier {tier}',
         'trusted_base': ['pyvc VC generator (own code, /verif/pyvc) and the Python semantics list of DESIGN.md 1.3',
